@@ -673,3 +673,81 @@ func init() {
 
 // a sanitised numeric argument is read back by the engine's literal evaluator: its table is part of C16's round trip
 func init() { register("C16", ruleLiteralTable) }
+
+func init() {
+	register("C14", ruleResolveBeforeCompare)
+	register("C05", ruleResolveBeforeCompare)
+	register("C06", ruleResolveBeforeCompare)
+}
+
+// ruleResolveBeforeCompare: DISTINCT and ORDER BY never look at unresolved ASYNC placeholders.
+func ruleResolveBeforeCompare(c *Ctx) {
+	c.Doc("c14.resolve-before-compare", "(*Query).exec: on every success path on which duplicate elimination or ordering is active (query.distinct set, or a non-empty ORDER BY list), the query's wait group is awaited and its post-processors are run between the projection and the duplicate-elimination stage — those stages compare column values, and an ASYNC column holds a pointer placeholder until its post-processor ran")
+	exec := c.P.Method(modPath, "Query", "exec")
+	if exec == nil {
+		c.Unknown("c14.resolve-before-compare", "(*Query).exec", "-", "anchor lost")
+		return
+	}
+	lp := findRangeLoopOverField(exec, "from")
+	if lp == nil {
+		c.Unknown("c14.resolve-before-compare", "(*Query).exec", c.P.Pos(exec.Pos()), "anchor lost: no loop over query.from")
+		return
+	}
+	paths, err := WalkFrom(exec, lp.exit, lp.header, WalkCfg{MaxVisits: 1, MaxPaths: 4000})
+	if err != nil {
+		c.Unknown("c14.resolve-before-compare", "(*Query).exec", c.P.Pos(exec.Pos()), err.Error())
+		return
+	}
+	var why []string
+	nActive, nIdle := 0, 0
+	for _, p := range paths {
+		if p.Exit != "return" || len(p.Ret) != 2 || !p.Ret[1].Nil {
+			continue
+		}
+		iSel, iDis := -1, -1
+		for i, e := range p.Effects {
+			if e.Kind == "call" && e.Callee == "ExecSelect" {
+				iSel = i
+			}
+			if e.Kind == "call" && e.Callee == "ExecDistinct" && iDis < 0 {
+				iDis = i
+			}
+		}
+		if iSel < 0 || iDis < 0 || iDis < iSel {
+			continue // exec.pipeline reports it
+		}
+		waited := false
+		for _, e := range p.Effects[iSel:iDis] {
+			if e.Kind == "call" && strings.HasSuffix(e.Callee, "sync.WaitGroup).Wait") && len(e.Args) == 1 && strings.Contains(e.Args[0].String(), ".wg") {
+				waited = true
+			}
+		}
+		if waited {
+			nActive++
+			continue
+		}
+		// not awaited: the path must have established that neither stage is active
+		distinctOff, orderEmpty := false, false
+		for k, v := range p.Asg {
+			if kt := p.KeyTerm[k]; kt != nil && kt.Op == "field" && kt.Name == "distinct" && !isTrueC(v) {
+				distinctOff = true
+			}
+		}
+		if p.final != nil {
+			for k, r := range p.final.rng {
+				if strings.Contains(k, "orderByDefinition") && r[1] == 0 {
+					orderEmpty = true
+				}
+			}
+		}
+		if distinctOff && orderEmpty {
+			nIdle++
+			continue
+		}
+		why = append(why, fmt.Sprintf("a success path reaches duplicate elimination / ordering without awaiting the outstanding calls although the stages may be active (distinct known off: %v, ORDER BY known empty: %v): ASYNC columns are compared as pointer placeholders", distinctOff, orderEmpty))
+	}
+	if nActive == 0 {
+		why = append(why, "no success path awaits the outstanding calls before duplicate elimination / ordering")
+	}
+	c.Check(len(why) == 0, "c14.resolve-before-compare", "(*Query).exec", c.P.Pos(exec.Pos()), fmt.Sprintf("%d paths await and resolve first, %d paths have both stages idle", nActive, nIdle), strings.Join(uniq(why), "; "))
+}
